@@ -171,3 +171,6 @@ def _splice(b, bb, g):
         b["blocks"].append(nb)
     b["blocks"][bb]["term"] = {"k": "goto", "t": bo, "line": line, "inlined": _strip(g["path"]), "inlined_call": call}
     b.setdefault("inlined", []).append(_strip(g["path"]))
+    b.setdefault("inl_rets", []).append(lo)
+    for x in g.get("inl_rets", []):
+        b["inl_rets"].append(x + lo)
